@@ -1144,6 +1144,7 @@ func stepsCmd(a Args) {
 	stStructOutputWitness(s)
 	stDecoratedStepWitness(s)
 	stRefusedThenSignalWitness(s)
+	stInitializerWithoutSignalsWitness(s)
 	for _, stream := range strings.Split(streams, ",") {
 		switch stream {
 		case "calls":
@@ -1479,6 +1480,65 @@ func stRefusedThenSignalWitness(s *sink) {
 		}
 		if ok && (atomic.LoadInt64(&stepCalls) != wantStep || atomic.LoadInt64(&sigCalls) != wantSig) {
 			s.finding(Finding{Prop: "C11", What: fmt.Sprintf("handlers ran %d (step) / %d (signal) times, expected %d / %d", stepCalls, sigCalls, wantStep, wantSig), Detail: []string{order}})
+		}
+	}
+}
+
+// stInitializerWithoutSignalsWitness (oracle-only): the per-run step data comes from the step's initializer
+// whether or not the step has signal handlers (a step that only emits signals, or keeps per-run scratch state):
+// it is created exactly once per run ID and is what the step handler receives - through CallStep and through
+// the typed Call, for handlers nil, empty, and for pointer and value step data.
+func stInitializerWithoutSignalsWitness(s *sink) {
+	inScope := func() *schema.ScopeSchema {
+		return schema.NewScopeSchema(schema.NewObjectSchema("in", map[string]*schema.PropertySchema{
+			"name": schema.NewPropertySchema(schema.NewStringSchema(nil, nil, nil), nil, true, nil, nil, nil, nil, nil)}))
+	}
+	outs := func() map[string]*schema.StepOutputSchema {
+		return map[string]*schema.StepOutputSchema{"success": schema.NewStepOutputSchema(inScope(), nil, false)}
+	}
+	for _, variant := range []string{"handlers nil", "handlers empty", "emitters only"} {
+		var inits int64
+		var seen []any
+		var handlers map[string]schema.CallableSignal
+		var emitters map[string]*schema.SignalSchema
+		switch variant {
+		case "handlers empty":
+			handlers = map[string]schema.CallableSignal{}
+		case "emitters only":
+			emitters = map[string]*schema.SignalSchema{"progress": schema.NewSignalSchema("progress", inScope(), nil)}
+		}
+		step := schema.NewCallableStepWithSignals[any, any]("s", inScope(), outs(), handlers, emitters, nil,
+			func() any { return &stBox{n: atomic.AddInt64(&inits, 1)} },
+			func(_ context.Context, d any, in any) (string, any) {
+				seen = append(seen, d)
+				return "success", map[string]any{"name": "done"}
+			})
+		cs := schema.NewCallableSchema(step)
+		runs := []string{"run-a", "run-b", "run-c"}
+		for i, run := range runs {
+			var err error
+			r := hx.Guard(func() hx.Result {
+				if i%2 == 0 {
+					_, _, err = cs.CallStep(context.Background(), run, "s", map[string]any{"name": "x"})
+				} else {
+					_, _, err = step.Call(context.Background(), run, map[string]any{"name": "x"})
+				}
+				return hx.Result{R: "ok"}
+			})
+			if r.R != "ok" || err != nil {
+				s.finding(Finding{Prop: "C11", What: "a valid step call on a step with an initializer and no signal handlers fails", Detail: []string{variant, fmt.Sprint(err), r.Msg}})
+			}
+		}
+		s.stats["initializer-without-signals-witness"]++
+		if n := atomic.LoadInt64(&inits); n != int64(len(runs)) {
+			s.finding(Finding{Prop: "C11", What: fmt.Sprintf("the initializer of a step without signal handlers ran %d times for %d run IDs (the per-run step data is created exactly once per run ID)", n, len(runs)), Detail: []string{variant}})
+		}
+		for i, d := range seen {
+			b, ok := d.(*stBox)
+			if !ok || b == nil {
+				s.finding(Finding{Prop: "C11", What: "the step handler of a step without signal handlers was not handed the step data its initializer creates", Detail: []string{variant, fmt.Sprintf("call %d got %#v", i+1, d)}})
+				break
+			}
 		}
 	}
 }
